@@ -413,6 +413,14 @@ func (hash *SexpHash) HashDelete(key Sexp) error {
 		if err == nil && res == 0 {
 			hash.Map[hashval] = append(arr[0:i], arr[i+1:]...)
 			hash.NumKeys--
+			// forget the key's insertion position too
+			for j, k := range hash.KeyOrder {
+				res, err := hash.Env.Compare(k, key)
+				if err == nil && res == 0 {
+					hash.KeyOrder = append(hash.KeyOrder[0:j], hash.KeyOrder[j+1:]...)
+					break
+				}
+			}
 			break
 		}
 	}
